@@ -3,6 +3,7 @@ CONSTANTS
   NR = 2
   Form = "one"
   Alpha = "one2"
+  XLess = {}
   Export = TRUE
 SPECIFICATION Spec
 INVARIANT TypeOK
